@@ -33,6 +33,9 @@ def main():
     if "--repo" in rest:
         repo = rest[rest.index("--repo") + 1]
     os.environ.setdefault("RALLY_HOME", os.path.join("/tmp", "verif-rally-home"))
+    import logging
+
+    logging.disable(logging.CRITICAL)  # Rally logs expected failures at ERROR level; the checks observe behaviour, not logs
     from vlib import core
 
     try:
